@@ -38,6 +38,7 @@ def Terminating (s : Sess) : Env → Prop
   | .readFail => True
   | .handlerPanic => True
   | .writeFail => writeAhead s
+  | .writeFailAfter _ => writeAhead s   -- … also when the failing write was a partial one
   | .close => noBlockAhead s
   | _ => False
 
@@ -52,6 +53,12 @@ theorem doomed_of_event {s : Sess} {e : Env} (h : Terminating s e) : Doomed (env
   case readFail => left; simp only [envStep]; split <;> simp_all
   case handlerPanic => left; simp only [envStep]; split <;> simp_all
   case writeFail => right; right; right; left; exact ⟨rfl, h⟩
+  case writeFailAfter n =>
+    right; right; right; left
+    simp only [envStep]
+    split
+    · rename_i hw; exact ⟨hw, h⟩
+    · exact ⟨rfl, h⟩
 
 theorem doomed_sendStepP {s a : Sess} (h : Doomed s) (ha : sendStepP s = some a) : Doomed a := by
   unfold Doomed writeAhead noBlockAhead at h ⊢
